@@ -1,7 +1,7 @@
 """C20 — after a server crash, externalised sessions continue as if nothing happened (mode F).
 
 For every session history (run spec x N stepping requests, each with one of {no body, {},
-constants v1, constants v2 + points}, begin-session with / without settings, compress off/on):
+constants v1, constants v2 + points} or being a run-steps request for two steps, begin-session with / without settings, compress off/on):
   * every crash point k in 0..N: the server object is dropped after request k, a new BptkServer is
     constructed on the same state directory, the remaining requests are issued;
   * torn writes: the state file written by request k is cut at every truncation class (0 bytes,
@@ -27,7 +27,14 @@ STEP_KINDS = ["nobody", "empty", "v1", "v2p"]
 TRUNC = ["empty", "one-byte", "in-header", "in-state", "last-byte-missing", "complete"]
 
 
+MULTI = {"rs2v1": 2, "rs2e": 2}      # one run-steps request taking two steps
+
+
 def step_body(kind):
+    if kind == "rs2v1":
+        return dict(step_body("v1"), numberSteps=2)
+    if kind == "rs2e":
+        return {"settings": {}, "numberSteps": 2}
     if kind == "nobody":
         return None
     if kind == "empty":
@@ -45,7 +52,7 @@ def begin_body(with_settings):
 
 
 def requests_of(kinds, tail):
-    reqs = [("run-step", step_body(k)) for k in kinds]
+    reqs = [("run-steps" if k in MULTI else "run-step", step_body(k)) for k in kinds]
     reqs += [("run-step", None)] * tail          # the remaining steps whose values must match
     reqs += [("session-results", None)]
     return reqs
@@ -96,7 +103,7 @@ def run_history(start, dt, kinds, begin_settings, compress, crash_k, trunc, two_
     trunc: None or a truncation class applied to the file written by request crash_k."""
     from BPTK_Py.externalstateadapter import FileAdapter
     from fractions import Fraction
-    stop = float(Fraction(str(start)) + max(8, len(kinds) + 4) * Fraction(str(dt)))
+    stop = float(Fraction(str(start)) + max(8, sum(MULTI.get(k, 1) for k in kinds) + 4) * Fraction(str(dt)))
     sd = os.path.join(core.scratch_dir(), "c20_%d" % os.getpid())
     viol = []
     label = "start=%r dt=%r steps=%r begin-settings=%s compress=%s crash-after=%d trunc=%s two=%s" % (start, dt, kinds, begin_settings, compress, crash_k, trunc, two_instances)
@@ -152,7 +159,7 @@ def run_history(start, dt, kinds, begin_settings, compress, crash_k, trunc, two_
             kind = reqs[crash_k + j][0]
             if g != w:
                 missing = ""
-                if kind == "run-step" and g[0] == 200 and isinstance(g[1], dict) and isinstance(w[1], dict):
+                if kind == "run-step" and g[0] == 200 and isinstance(g[1], dict) and isinstance(w[1], dict):  # (run-steps returns a list)
                     ge = set(g[1].get(SM, {}).get("base", {}))
                     we = set(w[1].get(SM, {}).get("base", {}))
                     if we - ge:
@@ -192,6 +199,21 @@ def jobs(tier):
                             out.append((st, dt, list(kinds), True, compress, k, tr, two))
                         # the *other* instance's file is the damaged one: this session continues as if nothing happened
                         out.append((st, dt, list(kinds), True, compress, k, tr, True, "other"))
+    # the last request before the crash took several steps (run-steps)
+    for (st, dt) in specs[:2]:
+        for n in (1, 2, 3):
+            for kinds in itertools.product(["nobody", "v1", "rs2v1", "rs2e"], repeat=n):
+                if not any(k in MULTI for k in kinds) or (n == 3 and kinds[0] in MULTI and kinds[2] in MULTI):
+                    continue
+                for compress in (False, True):
+                    for k in range(1, n + 1):
+                        out.append((st, dt, list(kinds), compress, compress, k, None, False))
+    # long sessions on grids whose times are no binary fractions, a setting in every step, every crash point
+    for (st, dt) in ([(0, 0.1), (1, 0.05)] if tier == "quick" else [(0, 0.1), (1, 0.05), (0, 0.2), (0, 0.3), (0.5, 0.1), (-1, 0.1)]):
+        n = 12
+        for compress in (False, True):
+            for k in range(1, n + 1):
+                out.append((st, dt, ["v1", "v2p"] * (n // 2), False, compress, k, None, False))
     # step times whose text order differs from their numeric order: negative times, more than ten steps
     for (st, dt, n) in ((-2, 1, 3), (-1, 0.5, 4), (0, 1, 12)):
         for kinds in (["v1"] + ["nobody"] * (n - 2) + ["v2p"], ["nobody", "v1"] + ["empty"] * (n - 2)):
@@ -231,7 +253,7 @@ def run(ctx):
     ctx.finish({
         "evaluations": len(js), "distinct_nontrivial": len(js) - skipped, "not_externalised_yet_skipped": skipped, "crash_point_cases": crash_points, "torn_write_cases": torn,
         "rule": "histories (run spec x N <= %d stepping requests x every sequence over {no body, {}, constants, constants+points} x begin-session settings x compress) x "
-                "every crash point k in 0..N; plus torn writes: file written by request k cut at %r, with and without a second intact instance; "
+                "every crash point k in 0..N; plus histories with run-steps requests, 12-step sessions with a setting in every step on decimal grids (dt .1, .05, ...) at every crash point, and torn writes: file written by request k cut at %r, with and without a second intact instance; "
                 "each case = one interrupted execution compared with the uninterrupted one" % (3 if ctx.tier == "quick" else 4, TRUNC),
         "samples": [list(j) for j in js[:2]] + [list(js[-1])],
     }, assumptions=["crash = the server object is dropped between two requests (or the last written state file is truncated); FileAdapter only"])
